@@ -10,6 +10,7 @@ def allOps : List (String × (V → R V)) :=
   ++ replayOps
   ++ batchingOps
   ++ onPolicyOps
+  ++ offPolicyOps
 
 def dispatch (op : String) (a : V) : R V :=
   match allOps.find? (·.1 == op) with
